@@ -626,6 +626,13 @@ type chunkStream[T any] struct {
 	chunk     []T
 }
 
+// chunkPrealloc is the capacity allocated up front for a chunk: chunkSize, but bounded, so that a
+// chunkSize far beyond what the input yields ("everything in one chunk") does not cost, or fail, an
+// allocation of that size. Larger chunks grow by append.
+func chunkPrealloc(chunkSize int) int {
+	return xmath.Min(chunkSize, 1024)
+}
+
 func (s *chunkStream[T]) Next(ctx context.Context) ([]T, error) {
 	for {
 		item, err := s.inner.Next(ctx)
@@ -637,13 +644,13 @@ func (s *chunkStream[T]) Next(ctx context.Context) ([]T, error) {
 		s.chunk = append(s.chunk, item)
 		if len(s.chunk) == s.chunkSize {
 			chunk := s.chunk
-			s.chunk = make([]T, 0, s.chunkSize)
+			s.chunk = make([]T, 0, chunkPrealloc(s.chunkSize))
 			return chunk, nil
 		}
 	}
 	if len(s.chunk) > 0 {
 		chunk := s.chunk
-		s.chunk = make([]T, 0, s.chunkSize)
+		s.chunk = make([]T, 0, chunkPrealloc(s.chunkSize))
 		return chunk, nil
 	}
 	return nil, End
